@@ -3,4 +3,4 @@ from . import session
 FAMILIES = [('mix', 1.0), ('lockstep', 0.5), ('loss', 0.5), ('long', 0.02)]
 
 def main(ctx):
-    session.run(ctx, "C04", FAMILIES, quick_count=100, thorough_count=4000, prop_mod=None)
+    session.run(ctx, "C04", FAMILIES, quick_count=100, thorough_count=4000, prop_mod=session.PROP_MODS.get("C04"))
